@@ -75,6 +75,29 @@ func loadProg(tags string, overlay map[string][]byte, patterns ...string) (*Prog
 	if err != nil {
 		return nil, fmt.Errorf("packages.Load: %w", err)
 	}
+	// canonical local names: functions that differ from their reference version only in the names of locals
+	// are analysed under the reference names (see canonnames.go); one reload with the renamed sources
+	if canon, n := canonicalNamesOverlay(pkgs, overlay); n > 0 {
+		merged := map[string][]byte{}
+		for k, v := range overlay {
+			merged[k] = v
+		}
+		for k, v := range canon {
+			merged[k] = v
+		}
+		cfg.Overlay = merged
+		if pkgs2, err2 := packages.Load(cfg, pats...); err2 == nil {
+			broken := false
+			for _, pk := range pkgs2 {
+				if len(pk.Errors) > 0 {
+					broken = true
+				}
+			}
+			if !broken {
+				pkgs = pkgs2
+			}
+		}
+	}
 	if len(pkgs) == 0 {
 		return nil, fmt.Errorf("no packages loaded for %v", pats)
 	}
